@@ -32,6 +32,9 @@ CHECKS['C05'] = dict(level='model_checking', design='1/C05',
 CHECKS['C06'] = dict(level='model_checking', design='1/C06',
      text='Json::decode/Xdl::decode and the incremental XdlParser are executed on every byte string up to the stated length and on every sequence of tokens from a JSON/XDL token table (optionally with an arbitrary byte spliced in): no memory error, termination within the step budget, 2-chunk feeding equals whole feeding for every cut, every document accepted by the independent strict parser is accepted with the same value, and every proper prefix of an accepted array/object/string document is rejected.',
      note='Bounds in evidence (raw length <= 2 quick / 3 thorough; <= 3-4 tokens; nesting 512). Trusted: z3, engine IR semantics, libc atof on concrete text.')
+CHECKS['C07'] = dict(level='model_checking', design='1/C07',
+     text='Xml::decode is executed on every byte string up to the stated length and every sequence of tokens from an XML token table (tags, attributes, references, comments, PIs, DOCTYPE, stray < and &): memory safety, termination, and parent() consistency of the returned tree are decided on every path; XmlCodec::encode followed by decode is checked for structural equality on DOM shapes whose attribute values and text bytes are symbolic.',
+     note='Bounds in evidence (depth <= 3). Trusted: z3, engine IR semantics, engine model of __dynamic_cast.')
 NA = {
 }
 ALL = ['C%02d' % i for i in range(1, 21)]
